@@ -123,6 +123,9 @@ type Script struct {
 	// RelistInHandler: that session's list-changed handlers list the kind they were told about right away,
 	// inside the handler (the natural reaction to the notification): what they get is the registered set.
 	RelistInHandler bool `json:"relist_in_handler,omitempty"`
+	// NoListChanged: the server's capabilities are given explicitly, with listChanged disabled for every kind
+	// (nobody is told about changes; what is registered is listed all the same).
+	NoListChanged bool `json:"no_list_changed,omitempty"`
 }
 
 var legacyVersions = []string{"2025-06-18", "2025-06-18", "2025-11-25", "2025-03-26", "2024-11-05"}
@@ -223,6 +226,9 @@ func gen(rt *rapid.T) Script {
 	if len(s.Late) > 0 {
 		s.LateAt = rapid.SampledFrom([]int{0, 0, 1, 1, 2, 3, 5}).Draw(rt, "late_at")
 		s.RelistInHandler = rapid.Bool().Draw(rt, "relist_in_handler")
+	} else {
+		// (only without the late, cache-beating part: a caching session of such a server is told nothing)
+		s.NoListChanged = rapid.IntRange(0, 2).Draw(rt, "no_list_changed") == 0
 	}
 	if density := rapid.SampledFrom([]int{0, 3, 6, 9}).Draw(rt, "hide_density"); density > 0 {
 		for n := range alphabet {
@@ -695,9 +701,15 @@ func runInBubble(s Script, res *vt.Result) {
 		s.PageSize = 1
 	}
 	e.s = s
-	e.server = mcp.NewServer(&mcp.Implementation{Name: "srv", Version: "1"}, &mcp.ServerOptions{
-		PageSize: s.PageSize, HasTools: true, HasPrompts: true, HasResources: true,
-	})
+	sopts := &mcp.ServerOptions{PageSize: s.PageSize, HasTools: true, HasPrompts: true, HasResources: true}
+	if s.NoListChanged {
+		sopts.Capabilities = &mcp.ServerCapabilities{
+			Tools: &mcp.ToolCapabilities{ListChanged: false}, Prompts: &mcp.PromptCapabilities{ListChanged: false},
+			Resources: &mcp.ResourceCapabilities{ListChanged: false},
+		}
+		e.res.Class("list_changed_disabled_in_the_capabilities")
+	}
+	e.server = mcp.NewServer(&mcp.Implementation{Name: "srv", Version: "1"}, sopts)
 	for k := 0; k < nKinds; k++ {
 		for _, n := range s.Init[k] {
 			id := idOf(k, n)
